@@ -72,9 +72,16 @@ def check(ctx):
     ctx.rule("C02.B7", "functions on the path of the user's **kwargs declare their own parameters positional-only (any keyword name, e.g. fn= or stack_frame=, can be passed to a call)")
     ctx.rule("C02.B5", "output plumbing: run returns run_physical's value, which is the value of the slot of the (redirected) output node; the output spec is gathered")
     ctx.rule("C02.B6", "unpack: one getitem call per index in range(length) on the node produced by the builtin unpack, which raises unless exactly `length` items were drawn (evaluated for lengths 0..3)")
+    ctx.rule("C02.B8", "schedule independence of the value: premises re-evaluated under this id - a call starts only after its dependencies succeeded (enqueue-after-success, atomic readiness counter, counting agreement), every dequeued node is processed once, queue kinds neither lose nor duplicate")
     ctx.assume("behaviour of list/tuple/set/dict/islice and of user functions is trusted; schedule independence of values follows from C01 + C04 + per-call slots")
     er = E.discover(m)
     rr = R.discover(m, er)
+    ctx.run(E.rule_enqueue_after_success, "C02.B8", er)
+    ctx.run(E.rule_atomic_counter, "C02.B8", er)
+    ctx.run(E.rule_counting_agreement, "C02.B8", er)
+    ctx.run(E.rule_one_callback_per_dequeue, "C02.B8", er)
+    ctx.run(E.rule_queue_effects, "C02.B8", er)
+    ctx.run(E.rule_callbacks_only_via_engine, "C02.B8", er, [rr.runcb, rr.stalecb])
     pcall = m.method("Plan", "_call", "WRITER")
     reader = m.one_func("get_argument_nodes", "READER")
     # ---------------------------------------------------------------- B1
